@@ -66,14 +66,14 @@ func registerMore() {
 			"Token kinds, first bytes, ids and error codes stay symbolic, so each path is decided for all values; map iteration order of the member parser is explored exhaustively for members with <= 3 keys.",
 		Bounds: []string{"quick: single non-batch member; value classes: version {2.0, other string, non-string}, method {ok, nosuch, rpc.other, empty, non-string, null}, error {object, non-object}, unknown key only with request fields",
 			"thorough: all classes (adds null version/error, failing handler, rpc.serverInfo), also as one-member arrays; two-member arrays use nine representative member classes each (the full generator squared did not finish in 25 minutes)", "all map iteration orders for <= 3 present keys (thorough: <= 4), one fixed order otherwise",
-			"ids of members of one batch pairwise different (duplicates: C07)", "one unknown key stands for any number", "envelope harness (started server): undecodable record, empty array, array holding a non-object, bare scalar; a call / one-call batch / empty array surrounded by 0..2 symbolic white-space bytes on each side; an undeliverable notification alone or in a batch of notifications; then a liveness probe"},
+			"ids of members of one batch pairwise different (duplicates: C07)", "one unknown key stands for any number", "envelope harness (started server): undecodable record, empty array, array holding a non-object, bare scalar; a call / one-call batch / empty array surrounded by 0..2 symbolic white-space bytes on each side; an undeliverable notification alone or in a batch of notifications; a three-member batch whose first member is rejected (scalar or wrong version) and whose others are valid; then a liveness probe"},
 		Outside:     []string{"random and mutated records beyond the bound (sampling is not done)", "duplicate keys inside one object (resolved by encoding/json)"},
 		Assumptions: append([]string{jsonAssumption, "reply-shaped member = carries a result or a well-formed error object and no method name (method absent, null, empty or not a string)"}, commonAssumptions...),
 		Harnesses: []HarnessSpec{
 			{Dir: "jrpc2", Name: "Harness_C02_single", Reach: []string{"dispatched", "silent", "single-reply"}},
 			{Dir: "jrpc2", Name: "Harness_selftest_wire", Reach: []string{"selftest-done", "selftest-broken-json"}, Tweak: delays(0, 1),
 				Bounds: map[string]string{"purpose": "engine validation: the inputs and expected replies of the repository's own TestServer_nonLibraryClient table (19 rows + 2 broken records) run through the engine; a mismatch makes the check inconclusive"}},
-			{Dir: "jrpc2", Name: "Harness_C02_envelope", Reach: []string{"answered", "alive", "padded", "undeliverable-notification"}},
+			{Dir: "jrpc2", Name: "Harness_C02_envelope", Reach: []string{"answered", "alive", "padded", "undeliverable-notification", "rejected-first"}},
 			{Dir: "jrpc2", Name: "Harness_C02_pairs", Reach: []string{"batch-reply"},
 				Bounds: map[string]string{"purpose": "arrays of two members, each from nine representative classes (call, notification, unknown / reserved method, wrong version, no id and no method name, result reply, error reply, non-object) with symbolic ids, params, results and codes"}},
 			{Dir: "jrpc2", Name: "Harness_C02_batch", Reach: []string{"batch-reply"}, ThoroughOnly: true},
@@ -102,6 +102,8 @@ func registerMore() {
 		Harnesses: []HarnessSpec{
 			{Dir: "jrpc2", Name: "Harness_C14_chain", Reach: []string{"delivered", "canceled-sentinel", "deadline-sentinel"}},
 			{Dir: "jrpc2", Name: "Harness_C14_code", Reach: []string{"code-roundtrip", "withdata"}},
+			{Dir: "jrpc2", Name: "Harness_C01_batch", Reach: []string{"unmarshalable", "error"}, Tweak: delays(1, 2),
+				Bounds: map[string]string{"purpose": "handler outcomes through the real dispatcher: a result json.Marshal refuses (a function value, or a json.RawMessage that is not valid JSON) becomes an error response; coded errors keep their code"}},
 		},
 	})
 	addProp(&PropSpec{
@@ -118,6 +120,8 @@ func registerMore() {
 			{Dir: "handler", Name: "Harness_C17_names", Reach: []string{"names"}},
 			{Dir: "jrpc2", Name: "Harness_C17_builtin", Reach: []string{"reserved", "serverinfo", "assigned"}},
 			{Dir: "jrpc2", Name: "Harness_C17_context", Reach: []string{"handler-ran"}},
+			{Dir: "jrpc2", Name: "Harness_C01_batch", Reach: []string{"result", "error"}, Tweak: delays(1, 2),
+				Bounds: map[string]string{"purpose": "dispatch within a batch: every member whose name the assigner maps runs that handler exactly once, also behind members whose names are unknown"}},
 		},
 	})
 	addProp(&PropSpec{
@@ -187,6 +191,8 @@ func registerMore2() {
 		Harnesses: []HarnessSpec{
 			{Dir: "handler", Name: "Harness_C16_positional", Reach: []string{"called", "rejected"}},
 			{Dir: "handler", Name: "Harness_C16_positional_arity", Reach: []string{"arity"}},
+			{Dir: "handler", Name: "Harness_C16_concurrent", Reach: []string{"concurrent"}, Tweak: func(c *Config, th bool) { c.Delays = 2; c.Preempt = 1 },
+				Bounds: map[string]string{"purpose": "two concurrent invocations of one positional handler; preemption bound 1 with the reflective call into the user function as a scheduling point"}},
 			{Dir: "handler", Name: "Harness_C16_custom", Reach: []string{"custom-rejected", "custom-accepted"}},
 			{Dir: "handler", Name: "Harness_C16_args", Reach: []string{"not-array", "length-mismatch", "element-error", "decoded"}},
 			{Dir: "handler", Name: "Harness_C16_args_marshal", Reach: []string{"marshalled"}},
@@ -226,21 +232,24 @@ func registerMore2() {
 		Explanation: "The real server.Loop, with real jrpc2 servers, is run as engine threads over a scripted in-memory Accepter: 0..2 connections; per connection the service's Assigner symbolically fails; the accepter then fails with a closing error, fails with another error, or blocks until the context ends; connections end by client close or context cancellation; the context may also end while a service is inside its Assigner call; scheduling decisions explored up to the delay bound. " +
 			"Asserted: one newService per connection; Loop does not return while a started server runs; exactly one Finish per started server and none for a failed Assigner, whose connection must be closed; Loop's return value.",
 		Bounds:      []string{"<= 2 connections (thorough 3)", "delay bound 2 (thorough 3), context switches at blocking operations", "no RPC traffic on the connections (server behaviour is C01-C10)"},
-		Outside:     []string{"NetAccepter over a real net.Listener", "handler durations (no handlers run here)"},
+		Outside:     []string{"a real net.Listener and real sockets under NetAccepter (a scripted in-memory listener is used)", "handler durations (no handlers run here)"},
 		Assumptions: append([]string{threadAssumption}, commonAssumptions...),
-		Harnesses:   []HarnessSpec{{Dir: "server", Name: "Harness_C20_loop", Reach: []string{"waits-for-servers", "finished", "assigner-failed", "accept-error", "done"}, Tweak: delays(2, 3)}},
+		Harnesses: []HarnessSpec{{Dir: "server", Name: "Harness_C20_loop", Reach: []string{"waits-for-servers", "finished", "assigner-failed", "accept-error", "done"}, Tweak: delays(2, 3)},
+			{Dir: "server", Name: "Harness_C20_netaccepter", Reach: []string{"net-done"}, Tweak: delays(2, 3),
+				Bounds: map[string]string{"purpose": "Loop over the real NetAccepter with a scripted net.Listener (0..1 connections, blocks until closed, then net.ErrClosed): the context ends before Loop starts, while Loop is blocked in Accept, or between two Accept calls"}}},
 	})
 	addProp(&PropSpec{
 		ID: "C11",
 		Explanation: "1..2 (thorough 3) records of 0..3 symbolic bytes each, plus optionally one record longer than the bufio buffer, are written by the real Send of the Split and Header framings (StrictHeader with and without content type, and the opthdr wrapper used by Header/LSP); the resulting byte stream is served by a reader with a symbolic chunking policy " +
-			"(all at once; uniform 1-, 2-, 3-byte reads; one cut at every position; final bytes with or without io.EOF) to the real bufio.Reader (executed from source, 16-byte buffer so that buffer-full continuation and refills occur) and the real Recv. Received records must equal the sent ones byte for byte and in order, then io.EOF, then errors. Send must refuse a record containing the split byte without writing (split byte: any byte value, symbolic; round trip: split byte in {LF, 0xff, 0x00, 0x1e}).",
+			"(all at once; uniform 1-, 2-, 3-byte reads; one cut at every position; final bytes with or without io.EOF) to the real bufio.Reader (executed from source, 16-byte buffer so that buffer-full continuation and refills occur) and the real Recv. Received records must equal the sent ones byte for byte and in order, then io.EOF, then errors. Direct (Go channels as engine channels): 1..3 (thorough 4) records that are nil, empty or 0..2 symbolic bytes, pipelined by a sender goroutine, then Close. Send must refuse a record containing the split byte without writing (split byte: any byte value, symbolic; round trip: split byte in {LF, 0xff, 0x00, 0x1e}).",
 		Bounds:      []string{"records: <= 2 (thorough 3) x <= 3 symbolic bytes + optional record of 15/16/17/18/32 bytes (split) or 20 bytes (header)", "bufio buffer 16 bytes (production: 4096; the code is parametric)", "chunking policies as listed"},
-		Outside:     []string{"RawJSON (boundaries found by encoding/json's streaming decoder: not encodable) and Direct (Go channels; exercised by the threaded harnesses only through the instrumented channel)", "multi-megabyte records and the hdr receive-buffer grow/shrink policy beyond 64 bytes"},
+		Outside:     []string{"RawJSON (boundaries found by encoding/json's streaming decoder: not encodable)", "multi-megabyte records and the hdr receive-buffer grow/shrink policy beyond 64 bytes"},
 		Assumptions: append([]string{"bufio.Reader, io.ReadFull, bytes helpers executed from source; bytes.Buffer and strings.Builder are engine intrinsics with the same observable behaviour"}, commonAssumptions...),
 		Harnesses: []HarnessSpec{
 			{Dir: "channel", Name: "Harness_C11_split", Reach: []string{"roundtrip"}},
 			{Dir: "channel", Name: "Harness_C11_split_guard", Reach: []string{"refused", "accepted"}},
 			{Dir: "channel", Name: "Harness_C11_hdr", Reach: []string{"roundtrip"}},
+			{Dir: "channel", Name: "Harness_C11_direct", Reach: []string{"direct"}},
 		},
 	})
 	addProp(&PropSpec{
@@ -266,7 +275,8 @@ func registerMore2() {
 		Outside:     []string{"reply ids that are textually different but numerically equal to a pending id (e.g. 01, 1.0) are 'other ids' (the client compares text)", "grouping of replies into arrays is a sequence of deliverLocked steps (covered by induction, not run as one record)"},
 		Assumptions: append([]string{jsonAssumption, threadAssumption, "strconv.FormatInt of a symbolic integer is an opaque decimal token, injective in the integer"}, commonAssumptions...),
 		Harnesses: []HarnessSpec{{Dir: "jrpc2", Name: "Harness_C04_step", Reach: []string{"delivered", "unknown-id", "sent", "notes-only", "send-failed"}, Tweak: delays(2, 3)},
-			{Dir: "jrpc2", Name: "Harness_C04_stream", Reach: []string{"stream-done"}, Tweak: delays(2, 3)}},
+			{Dir: "jrpc2", Name: "Harness_C04_stream", Reach: []string{"stream-done"}, Tweak: delays(2, 3)},
+			{Dir: "jrpc2", Name: "Harness_C04_batchstream", Reach: []string{"batchstream-done"}, Tweak: delays(2, 3)}},
 	})
 	addProp(&PropSpec{
 		ID:          "C05",
@@ -275,7 +285,8 @@ func registerMore2() {
 		Outside:     []string{"'leaving no goroutine behind' beyond the threads of one step", "deadline (as opposed to cancel) contexts in the step harness: filterError's mapping of both codes is decided in C14"},
 		Assumptions: append([]string{jsonAssumption, threadAssumption}, commonAssumptions...),
 		Harnesses: []HarnessSpec{{Dir: "jrpc2", Name: "Harness_C04_step", Reach: []string{"cancelled", "deadline", "too-late-cancel", "stopped", "stopped-send", "send-failed"}, Tweak: delays(2, 3)},
-			{Dir: "jrpc2", Name: "Harness_C10_client", Reach: []string{"closed", "close-waits"}, Tweak: delays(2, 3)}},
+			{Dir: "jrpc2", Name: "Harness_C10_client", Reach: []string{"closed", "close-waits"}, Tweak: delays(2, 3)},
+			{Dir: "jrpc2", Name: "Harness_C04_batchstream", Reach: []string{"batchstream-done"}, Tweak: delays(2, 3)}},
 	})
 	addProp(&PropSpec{
 		ID: "C10",
@@ -295,7 +306,7 @@ func registerMore2() {
 	})
 	addProp(&PropSpec{
 		ID: "C06",
-		Explanation: "(1) ServerOptions.concurrency for every 64-bit Concurrency value and NumCPU >= 1, and the capacity of the semaphore NewServer builds (real x/sync/semaphore source). (2) A batch of 3 gated calls (+ optionally rpc.serverInfo) through the real dispatcher closure with limit in {1,2}: at quiescence exactly `limit` handlers run while the others wait (never more; work-conserving), a waiting call cancelled by CancelRequest never runs and is answered with the cancellation code, all slots are free at the end; optionally a gated notification ahead of the calls and a failing notification behind them. (3) A handler that waits inside Server.Callback for the reply to its own push still holds its slot: limit+1 handlers for limit slots, the push answered later. C01/C03 harnesses additionally assert the limit.",
+		Explanation: "(1) ServerOptions.concurrency for every 64-bit Concurrency value and NumCPU >= 1, and the capacity of the semaphore NewServer builds (real x/sync/semaphore source). (2) A batch of 3 gated calls (+ optionally rpc.serverInfo) through the real dispatcher closure with limit in {1,2}: at quiescence exactly `limit` handlers run while the others wait (never more; work-conserving), a waiting call cancelled by CancelRequest never runs and is answered with the cancellation code, all slots are free at the end; optionally a gated notification ahead of the calls and a failing notification behind them. (3) A handler that waits inside Server.Callback for the reply to its own push still holds its slot: limit+1 handlers for limit slots, the push answered later. (4) rpc.serverInfo arriving while user handlers hold every slot: its observable work (walking the assigner's Names) happens only once a slot is free. C01/C03 harnesses additionally assert the limit.",
 		Bounds:      []string{"Concurrency: any int (options); limit in {1,2} (run; thorough {1,2,3})", "3 calls (thorough 4) + optional built-in + optional notifications", "delay bound 2 (thorough 3)"},
 		Outside:     []string{"limits above 3 in the threaded run", "fairness among waiters"},
 		Assumptions: append([]string{jsonAssumption, threadAssumption}, commonAssumptions...),
@@ -303,6 +314,7 @@ func registerMore2() {
 			{Dir: "jrpc2", Name: "Harness_C06_opts", Reach: []string{"explicit", "default"}},
 			{Dir: "jrpc2", Name: "Harness_C06_run", Reach: []string{"done"}, Tweak: delays(2, 3)},
 			{Dir: "jrpc2", Name: "Harness_C06_callback", Reach: []string{"waiting-in-callback", "done"}},
+			{Dir: "jrpc2", Name: "Harness_C06_builtin", Reach: []string{"builtin-done"}},
 		},
 	})
 	addProp(&PropSpec{
@@ -335,6 +347,8 @@ func registerMore2() {
 			{Dir: "jrpc2", Name: "Harness_C13_roundtrip", Reach: []string{"roundtrip"}},
 			{Dir: "jrpc2", Name: "Harness_C13_producers", Reach: []string{"bad-params", "client-request", "push", "response"}},
 			{Dir: "jrpc2", Name: "Harness_C13_padded", Reach: []string{"padded"}},
+			{Dir: "jhttp", Name: "Harness_C18_bridge", Reach: []string{"single", "array"},
+				Bounds: map[string]string{"purpose": "the HTTP bridge's replies (Response.MarshalJSON after SetID) are valid JSON-RPC responses that carry the caller's own id text, also when notifications precede calls in a batch"}},
 			{Dir: "jrpc2", Name: "Harness_C13_parse", Reach: []string{"valid-member", "invalid-member", "invalid-json"}},
 		},
 	})
